@@ -1,5 +1,6 @@
 import Model.RefSlot
 import Spec.RefVal
+import Proofs.Lemmas.RefSlotBasic
 /-!
 C06 — lemmas about `Model.RefSlot` under `Cfg.counted` (the mark on a slot counts its live binders).
 
@@ -18,10 +19,241 @@ structure WF (s : St) : Prop where
   count : ∀ (c : Nat) (cl : Cell), s.heap[c]? = some cl → cl.cnt = binders s c
 
 theorem wf_init (nv nr : Nat) : WF (init nv nr) := by
-  sorry
+  refine ⟨?_, ?_, ?_⟩
+  · intro x a i c hx hi
+    simp only [init, List.getElem?_replicate] at hx
+    split at hx
+    · cases hx; simp at hi
+    · cases hx
+  · intro r c k hr
+    simp only [init, List.getElem?_replicate] at hr
+    split at hr <;> cases hr
+  · intro c cl hc
+    simp [init] at hc
+
+/-- fresh unmarked cells, any slot lists over the extended heap -/
+theorem wf_grow (s : St) (h : WF s) (extra : List Cell) (arrs' : List (List Nat))
+    (hex : ∀ cl, cl ∈ extra → cl.cnt = 0)
+    (hsl : ∀ (x : Nat) (a : List Nat) (i c : Nat), arrs'[x]? = some a → a[i]? = some c →
+      c < s.heap.length + extra.length) :
+    WF ⟨s.heap ++ extra, arrs', s.bnd⟩ := by
+  refine ⟨?_, ?_, ?_⟩
+  · intro x a i c hx hi
+    show c < (s.heap ++ extra).length
+    rw [List.length_append]
+    exact hsl x a i c hx hi
+  · intro r c k hr
+    have := h.bound r c k hr
+    show c < (s.heap ++ extra).length
+    rw [List.length_append]; omega
+  · intro c cl hc
+    have hc' : (s.heap ++ extra)[c]? = some cl := hc
+    by_cases hlt : c < s.heap.length
+    · rw [List.getElem?_append_left hlt] at hc'
+      rw [h.count c cl hc']
+      exact (binders_congr _ _ rfl c).symm
+    · rw [List.getElem?_append_right (by omega)] at hc'
+      rw [hex cl (List.mem_of_getElem? hc')]
+      symm
+      apply binders_eq_zero
+      intro r k hr
+      have := h.bound r c k hr
+      omega
+
+/-- the heap rewritten cell by cell, marks kept -/
+theorem wf_heap_upd (s : St) (h : WF s) (heap' : List Cell) (hlen : heap'.length = s.heap.length)
+    (hc : ∀ (c : Nat) (cl' : Cell), heap'[c]? = some cl' → ∃ cl, s.heap[c]? = some cl ∧ cl.cnt = cl'.cnt) :
+    WF ⟨heap', s.arrs, s.bnd⟩ := by
+  refine ⟨?_, ?_, ?_⟩
+  · intro x a i c hx hi
+    show c < heap'.length
+    rw [hlen]; exact h.slots x a i c hx hi
+  · intro r c k hr
+    show c < heap'.length
+    rw [hlen]; exact h.bound r c k hr
+  · intro c cl' hcl
+    obtain ⟨cl, h1, h2⟩ := hc c cl' hcl
+    rw [← h2, h.count c cl h1]
+    exact (binders_congr _ _ rfl c).symm
+
+/-- slot `(x, i)` gets a fresh unmarked cell -/
+theorem wf_replace (s : St) (h : WF s) (x i : Nat) (a : List Nat) (v : Int) (hx : s.arrs[x]? = some a) :
+    WF ⟨s.heap ++ [⟨v, 0⟩], s.arrs.set x (a.set i s.heap.length), s.bnd⟩ := by
+  apply wf_grow s h
+  · intro cl hcl
+    simp only [List.mem_singleton] at hcl
+    subst hcl; rfl
+  · apply slots_set
+    · intro x1 a1 i1 c1 h1 h2
+      have := h.slots x1 a1 i1 c1 h1 h2
+      simp only [List.length_cons, List.length_nil]; omega
+    · apply slots_set_elem
+      · intro j c hj
+        have := h.slots x a j c hx hj
+        simp only [List.length_cons, List.length_nil]; omega
+      · simp only [List.length_cons, List.length_nil]; omega
+
+theorem wf_inplace (s : St) (h : WF s) (c : Nat) (cl : Cell) (v : Int) (hc : s.heap[c]? = some cl) :
+    WF ⟨s.heap.set c ⟨v, cl.cnt⟩, s.arrs, s.bnd⟩ := by
+  apply wf_heap_upd s h
+  · simp
+  · intro d cd hd
+    rcases get_set_cell _ _ _ _ hc _ _ hd with ⟨h1, h2⟩ | ⟨_, h2⟩
+    · subst h1; subst h2; exact ⟨cl, hc, rfl⟩
+    · exact ⟨cd, h2, rfl⟩
+
+theorem wf_release (s : St) (r : Nat) (h : WF s) : WF (release .counted s r) := by
+  cases hb : s.bnd[r]? with
+  | none => unfold release; rw [hb]; exact h
+  | some b =>
+    cases b with
+    | none => rw [release_unbound _ _ _ hb]; exact h
+    | some p =>
+      obtain ⟨c, k⟩ := p
+      have hlt := h.bound r c k hb
+      obtain ⟨cl, hcl⟩ : ∃ cl, s.heap[c]? = some cl := ⟨s.heap[c], by simp [hlt]⟩
+      rw [release_bound s r c k cl hb hcl]
+      refine ⟨?_, ?_, ?_⟩
+      · intro x a i c1 hx hi
+        show c1 < (s.heap.set c _).length
+        rw [List.length_set]; exact h.slots x a i c1 hx hi
+      · intro r1 c1 k1 hr1
+        show c1 < (s.heap.set c _).length
+        rw [List.length_set]
+        have hr1' : (s.bnd.set r none)[r1]? = some (some (c1, k1)) := hr1
+        rw [List.getElem?_set] at hr1'
+        split at hr1'
+        · split at hr1' <;> cases hr1'
+        · exact h.bound r1 c1 k1 hr1'
+      · intro d cd hd
+        have hbr := binders_release s ⟨s.heap.set c ⟨cl.val, cl.cnt - 1⟩, s.arrs, s.bnd.set r none⟩ r c k rfl hb d
+        rcases get_set_cell _ _ _ _ hcl _ _ hd with ⟨h1, h2⟩ | ⟨h1, h2⟩
+        · subst h1; subst h2
+          have := h.count d cl hcl
+          simp only [if_true] at hbr
+          show cl.cnt - 1 = _
+          omega
+        · have := h.count d cd h2
+          have hne : ¬ c = d := fun e => h1 e.symm
+          simp only [hne, if_false] at hbr
+          omega
+
+/-- the binding itself: `r` (unbound) is bound to the allocated cell `c` -/
+theorem wf_bind_final (s1 : St) (r c : Nat) (k : Kind) (h : WF s1) (hr : s1.bnd[r]? = some none)
+    (hc : c < s1.heap.length) :
+    WF ⟨incCnt s1.heap c, s1.arrs, s1.bnd.set r (some (c, k))⟩ := by
+  obtain ⟨cl, hcl⟩ : ∃ cl, s1.heap[c]? = some cl := ⟨s1.heap[c], by simp [hc]⟩
+  rw [incCnt_of_get _ _ _ hcl]
+  refine ⟨?_, ?_, ?_⟩
+  · intro x a i c1 hx hi
+    show c1 < (s1.heap.set c _).length
+    rw [List.length_set]; exact h.slots x a i c1 hx hi
+  · intro r1 c1 k1 hr1
+    show c1 < (s1.heap.set c _).length
+    rw [List.length_set]
+    have hr1' : (s1.bnd.set r (some (c, k)))[r1]? = some (some (c1, k1)) := hr1
+    rw [List.getElem?_set] at hr1'
+    split at hr1'
+    · split at hr1'
+      · cases hr1'; exact hc
+      · cases hr1'
+    · exact h.bound r1 c1 k1 hr1'
+  · intro d cd hd
+    have hbb := binders_bind s1 ⟨s1.heap.set c ⟨cl.val, cl.cnt + 1⟩, s1.arrs, s1.bnd.set r (some (c, k))⟩ r c k rfl hr d
+    rcases get_set_cell _ _ _ _ hcl _ _ hd with ⟨h1, h2⟩ | ⟨h1, h2⟩
+    · subst h1; subst h2
+      have := h.count d cl hcl
+      simp only [if_true] at hbb
+      show cl.cnt + 1 = _
+      omega
+    · have := h.count d cd h2
+      have hne : ¬ c = d := fun e => h1 e.symm
+      simp only [hne, if_false] at hbb
+      omega
+
+theorem wf_ownSlot (s s1 : St) (x i c : Nat) (h : WF s) (ho : ownSlot s x i = some (s1, c)) :
+    WF s1 ∧ c < s1.heap.length ∧ s1.bnd = s.bnd := by
+  obtain ⟨a, c0, cl, hx, hi, hcl, hcase⟩ := ownSlot_some _ _ _ _ _ ho
+  rcases hcase with ⟨_, h1, h2⟩ | ⟨_, h1, h2⟩
+  · subst h1; subst h2
+    exact ⟨h, h.slots x a i c hx hi, rfl⟩
+  · subst h1; subst h2
+    refine ⟨wf_replace s h x i a cl.val hx, ?_, rfl⟩
+    show s.heap.length < (s.heap ++ [_]).length
+    simp
+
+theorem wf_stepOpt (s s' : St) (op : Op) (h : WF s) (hs : stepOpt .counted s op = some s') : WF s' := by
+  cases op with
+  | lit x vs =>
+    simp only [stepOpt] at hs
+    split at hs
+    · cases hs
+      apply wf_grow s h
+      · intro cl hcl
+        simp only [List.mem_map] at hcl
+        obtain ⟨v, _, hv⟩ := hcl
+        subst hv; rfl
+      · apply slots_set
+        · intro x1 a1 i1 c1 h1 h2
+          have := h.slots x1 a1 i1 c1 h1 h2
+          omega
+        · intro j c hj
+          have := List.mem_of_getElem? hj
+          simp only [List.mem_range'_1, List.length_map] at this ⊢
+          omega
+    · cases hs
+  | copy x y =>
+    simp only [stepOpt] at hs
+    split at hs
+    · split at hs
+      · next a hy =>
+        cases hs
+        refine ⟨?_, h.bound, h.count⟩
+        apply slots_set _ _ _ _ h.slots
+        intro j c hj
+        exact h.slots y a j c hy hj
+      · cases hs
+    · cases hs
+  | store x i v =>
+    simp only [stepOpt] at hs
+    obtain ⟨a, c0, cl, hx, hi, hcl, hcase⟩ := storeSlot_some _ _ _ _ _ hs
+    rcases hcase with ⟨_, h1⟩ | ⟨_, h1⟩
+    · subst h1; exact wf_inplace s h c0 cl v hcl
+    · subst h1; exact wf_replace s h x i a v hx
+  | bind k r x i =>
+    simp only [stepOpt] at hs
+    split at hs
+    · next hr =>
+      split at hs
+      · cases hs
+      · next s1 c ho =>
+        cases hs
+        obtain ⟨hw1, hc1, hb1⟩ := wf_ownSlot _ _ _ _ _ (wf_release s r h) ho
+        have hrn : s1.bnd[r]? = some none := by rw [hb1]; exact release_bnd_self _ s r hr
+        exact wf_bind_final s1 r c k hw1 hrn hc1
+    · cases hs
+  | wr r v =>
+    simp only [stepOpt] at hs
+    split at hs
+    · next c k hb =>
+      cases hs
+      have hlt := h.bound r c k hb
+      obtain ⟨cl, hcl⟩ : ∃ cl, s.heap[c]? = some cl := ⟨s.heap[c], by simp [hlt]⟩
+      rw [setVal_of_get _ _ _ _ hcl]
+      exact wf_inplace s h c cl v hcl
+    · cases hs; exact h
+    · cases hs
+  | release r =>
+    simp only [stepOpt] at hs
+    split at hs
+    · cases hs; exact wf_release s r h
+    · cases hs
 
 theorem wf_step (s : St) (op : Op) (h : WF s) : WF (step .counted s op) := by
-  sorry
+  unfold step
+  cases hs : stepOpt .counted s op with
+  | none => exact h
+  | some s' => exact wf_stepOpt s s' op h hs
 
 theorem wf_fold (ops : List Op) (s : St) (h : WF s) : WF (ops.foldl (step .counted) s) := by
   induction ops generalizing s with
@@ -35,7 +267,9 @@ theorem wf_run (nv nr : Nat) (ops : List Op) : WF (run .counted nv nr ops) :=
 theorem unmarked_of_no_binder (s : St) (h : WF s)
     (hb : ∀ (r c : Nat) (k : Kind), s.bnd[r]? ≠ some (some (c, k))) :
     ∀ (c : Nat) (cl : Cell), s.heap[c]? = some cl → cl.cnt = 0 := by
-  sorry
+  intro c cl hc
+  rw [h.count c cl hc]
+  exact binders_eq_zero s c (fun r k => hb r c k)
 
 /-- the simulation relation; `L` = the reference variables that may be live -/
 structure Sim (L : List Nat) (s : St) (t : Spec.RefVal.St) : Prop where
@@ -49,13 +283,527 @@ structure Sim (L : List Nat) (s : St) (t : Spec.RefVal.St) : Prop where
       x = x' ∧ i = i'
 
 theorem sim_init (nv nr : Nat) : Sim [] (init nv nr) (Spec.RefVal.init nv nr) := by
-  sorry
+  refine ⟨?_, ?_, ?_, ?_, ?_⟩
+  · simp [vals, init, Spec.RefVal.init]
+  · simp [init, Spec.RefVal.init]
+  · intro r c k hr
+    simp only [init, List.getElem?_replicate] at hr
+    split at hr <;> cases hr
+  · intro r hr
+    simp only [init, Spec.RefVal.init, List.getElem?_replicate] at hr ⊢
+    split at hr
+    · next hlt => simp only [hlt, if_true]
+    · cases hr
+  · intro c cl hc
+    simp [init] at hc
+
+/-! ### what the spec sees -/
+
+theorem spec_arrs_get {L : List Nat} {s : St} {t : Spec.RefVal.St} (hs : Sim L s t) (x : Nat) :
+    t.arrs[x]? = (s.arrs[x]?).map (fun a => a.map (cellVal s.heap)) := by
+  rw [hs.arrs]; simp [vals]
+
+theorem spec_arrs_len {L : List Nat} {s : St} {t : Spec.RefVal.St} (hs : Sim L s t) :
+    t.arrs.length = s.arrs.length := by
+  rw [hs.arrs]; simp [vals]
+
+theorem spec_bnd_none {L : List Nat} {s : St} {t : Spec.RefVal.St} (hs : Sim L s t) (r : Nat)
+    (h : s.bnd[r]? = none) : t.bnd[r]? = none := by
+  have hl := hs.len
+  simp only [List.getElem?_eq_none_iff] at h ⊢
+  omega
+
+theorem spec_store_some {L : List Nat} {s : St} {t : Spec.RefVal.St} (hs : Sim L s t)
+    (x i c : Nat) (a : List Nat) (v : Int) (hx : s.arrs[x]? = some a) (hi : a[i]? = some c) :
+    Spec.RefVal.store t x i v = some ⟨t.arrs.set x ((a.map (cellVal s.heap)).set i v), t.bnd⟩ := by
+  have h1 := spec_arrs_get hs x
+  rw [hx] at h1
+  have hlt := lt_of_getElem?_eq_some _ _ _ hi
+  unfold Spec.RefVal.store
+  rw [h1]
+  simp only [Option.map_some, List.length_map, hlt, if_true]
+
+theorem spec_store_none1 {L : List Nat} {s : St} {t : Spec.RefVal.St} (hs : Sim L s t)
+    (x i : Nat) (v : Int) (hx : s.arrs[x]? = none) :
+    Spec.RefVal.store t x i v = none := by
+  have h1 := spec_arrs_get hs x
+  rw [hx] at h1
+  unfold Spec.RefVal.store
+  rw [h1]; rfl
+
+theorem spec_store_none2 {L : List Nat} {s : St} {t : Spec.RefVal.St} (hs : Sim L s t)
+    (x i : Nat) (a : List Nat) (v : Int) (hx : s.arrs[x]? = some a) (hi : a[i]? = none) :
+    Spec.RefVal.store t x i v = none := by
+  have h1 := spec_arrs_get hs x
+  rw [hx] at h1
+  have hlt : ¬ i < a.length := by
+    simp only [List.getElem?_eq_none_iff] at hi; omega
+  unfold Spec.RefVal.store
+  rw [h1]
+  simp only [Option.map_some, List.length_map, hlt, if_false]
+
+/-! ### the simulation, piece by piece -/
+
+theorem sim_mono (L L' : List Nat) (s : St) (t : Spec.RefVal.St) (hs : Sim L s t)
+    (hsub : ∀ r, r ∈ L → (∃ c k, s.bnd[r]? = some (some (c, k))) → r ∈ L') : Sim L' s t := by
+  refine ⟨hs.arrs, hs.len, ?_, hs.dead, hs.uniq⟩
+  intro r c k hr
+  obtain ⟨h1, h2⟩ := hs.live r c k hr
+  exact ⟨hsub r h1 ⟨c, k, hr⟩, h2⟩
+
+/-- no binder is live and none appears: only the values matter -/
+theorem sim_nobinder (s s' : St) (t t' : Spec.RefVal.St) (hs : Sim [] s t) (hw' : WF s')
+    (hb : s'.bnd = s.bnd) (hb' : t'.bnd = t.bnd) (ha : t'.arrs = vals s') : Sim [] s' t' := by
+  have hno : ∀ (r c : Nat) (k : Kind), s'.bnd[r]? ≠ some (some (c, k)) := by
+    intro r c k hr
+    rw [hb] at hr
+    have := (hs.live r c k hr).1
+    cases this
+  refine ⟨ha, ?_, ?_, ?_, ?_⟩
+  · rw [hb, hb']; exact hs.len
+  · intro r c k hr; exact absurd hr (hno r c k)
+  · intro r hr; rw [hb] at hr; rw [hb']; exact hs.dead r hr
+  · intro c cl hc hpos
+    have := unmarked_of_no_binder s' hw' hno c cl hc
+    omega
+
+/-- a marked cell is written in place: the spec's store at the one slot it occupies -/
+theorem sim_inplace (L : List Nat) (s : St) (t : Spec.RefVal.St) (hs : Sim L s t)
+    (x i c : Nat) (a : List Nat) (cl : Cell) (v : Int)
+    (hx : s.arrs[x]? = some a) (hi : a[i]? = some c) (hc : s.heap[c]? = some cl) (hpos : 0 < cl.cnt) :
+    Sim L ⟨s.heap.set c ⟨v, cl.cnt⟩, s.arrs, s.bnd⟩
+      ⟨t.arrs.set x ((a.map (cellVal s.heap)).set i v), t.bnd⟩ := by
+  refine ⟨?_, hs.len, hs.live, hs.dead, ?_⟩
+  · show t.arrs.set x _ = s.arrs.map (fun a => a.map (cellVal (s.heap.set c ⟨v, cl.cnt⟩)))
+    rw [hs.arrs]
+    symm
+    apply vals_set_unique s.arrs _ _ x i c a v hx hi
+    · exact cellVal_set_self _ _ _ _ hc
+    · intro c' hne; exact cellVal_set_ne _ _ _ _ hne
+    · intro x' a' i' h1 h2
+      exact hs.uniq c cl hc hpos x' a' i' x a i h1 h2 hx hi
+  · intro d cd hd hp x1 a1 i1 x2 a2 i2 h1 h2 h3 h4
+    rcases get_set_cell _ _ _ _ hc _ _ hd with ⟨e1, _⟩ | ⟨_, e2⟩
+    · subst e1
+      exact hs.uniq d cl hc hpos x1 a1 i1 x2 a2 i2 h1 h2 h3 h4
+    · exact hs.uniq d cd e2 hp x1 a1 i1 x2 a2 i2 h1 h2 h3 h4
+
+/-- an unmarked cell at `(x, i)` is replaced by a fresh one holding `v` -/
+theorem sim_replace (L : List Nat) (s : St) (t : Spec.RefVal.St) (hw : WF s) (hs : Sim L s t)
+    (x i c : Nat) (a : List Nat) (cl : Cell) (v : Int)
+    (hx : s.arrs[x]? = some a) (hi : a[i]? = some c) (hc : s.heap[c]? = some cl) (h0 : cl.cnt = 0) :
+    Sim L ⟨s.heap ++ [⟨v, 0⟩], s.arrs.set x (a.set i s.heap.length), s.bnd⟩
+      ⟨t.arrs.set x ((a.map (cellVal s.heap)).set i v), t.bnd⟩ := by
+  refine ⟨?_, hs.len, ?_, hs.dead, ?_⟩
+  · show t.arrs.set x _ =
+      (s.arrs.set x (a.set i s.heap.length)).map (fun a => a.map (cellVal (s.heap ++ [⟨v, 0⟩])))
+    have e1 : s.arrs.map (fun a => a.map (cellVal (s.heap ++ [⟨v, 0⟩]))) = vals s := by
+      apply vals_congr
+      intro x1 a1 i1 c1 h1 h2
+      exact cellVal_append_left _ _ _ (hw.slots x1 a1 i1 c1 h1 h2)
+    have e2 : a.map (cellVal (s.heap ++ [⟨v, 0⟩])) = a.map (cellVal s.heap) := by
+      apply List.map_congr_left
+      intro c1 hc1
+      obtain ⟨i1, hi1⟩ := List.getElem?_of_mem hc1
+      exact cellVal_append_left _ _ _ (hw.slots x a i1 c1 hx hi1)
+    simp only [List.map_set]
+    rw [e1, e2, cellVal_append_new, hs.arrs]
+  · intro r c' k hr
+    obtain ⟨hrL, x0, i0, a0, ht, h1, h2⟩ := hs.live r c' k hr
+    refine ⟨hrL, x0, i0, ?_⟩
+    have hne : ¬ (x0 = x ∧ i0 = i) := by
+      rintro ⟨e1, e2⟩
+      subst e1; subst e2
+      rw [hx] at h1; cases h1
+      rw [hi] at h2; cases h2
+      have := binders_pos s r c k hr
+      have := hw.count c cl hc
+      omega
+    obtain ⟨a1, h3, h4⟩ := slot_set_new s.arrs x i s.heap.length a hx x0 i0 c' a0 h1 h2 hne
+    exact ⟨a1, ht, h3, h4⟩
+  · intro d cd hd hp x1 a1 i1 x2 a2 i2 h1 h2 h3 h4
+    rcases get_append_cell _ _ _ _ hd with ⟨_, e2⟩ | ⟨e1, e2⟩
+    · subst e2; cases hp
+    · have hne : d ≠ s.heap.length := by omega
+      obtain ⟨b1, g1, g2⟩ := slot_set_old s.arrs x i s.heap.length a hx x1 i1 d a1 h1 h2 hne
+      obtain ⟨b2, g3, g4⟩ := slot_set_old s.arrs x i s.heap.length a hx x2 i2 d a2 h3 h4 hne
+      exact hs.uniq d cd e2 hp x1 b1 i1 x2 b2 i2 g1 g2 g3 g4
+
+/-- the binding itself -/
+theorem sim_bind_final (L : List Nat) (s1 : St) (t : Spec.RefVal.St) (hw : WF s1) (hs : Sim L s1 t)
+    (r c x i : Nat) (k : Kind) (a : List Nat) (hr : s1.bnd[r]? = some none)
+    (hx : s1.arrs[x]? = some a) (hi : a[i]? = some c)
+    (hu : ∀ (x' : Nat) (a' : List Nat) (i' : Nat), s1.arrs[x']? = some a' → a'[i']? = some c → x' = x ∧ i' = i) :
+    Sim (r :: L) ⟨incCnt s1.heap c, s1.arrs, s1.bnd.set r (some (c, k))⟩
+      ⟨t.arrs, t.bnd.set r (some (x, i))⟩ := by
+  have hrlt := lt_of_getElem?_eq_some _ _ _ hr
+  have hlen := hs.len
+  refine ⟨?_, ?_, ?_, ?_, ?_⟩
+  · show t.arrs = s1.arrs.map (fun a => a.map (cellVal (incCnt s1.heap c)))
+    have : cellVal (incCnt s1.heap c) = cellVal s1.heap := funext (cellVal_incCnt _ _)
+    rw [this]; exact hs.arrs
+  · show (t.bnd.set r _).length = (s1.bnd.set r _).length
+    rw [List.length_set, List.length_set]; exact hlen
+  · intro r1 c1 k1 hr1
+    have hr1' : (s1.bnd.set r (some (c, k)))[r1]? = some (some (c1, k1)) := hr1
+    show r1 ∈ r :: L ∧ ∃ x0 i0 a0, (t.bnd.set r (some (x, i)))[r1]? = some (some (x0, i0)) ∧ _
+    rw [List.getElem?_set] at hr1'
+    rw [List.getElem?_set]
+    by_cases hrr : r = r1
+    · subst hrr
+      simp only [if_true, hrlt] at hr1'
+      cases hr1'
+      have : r < t.bnd.length := by omega
+      simp only [if_true, this]
+      exact ⟨List.mem_cons_self, x, i, a, rfl, hx, hi⟩
+    · simp only [hrr, if_false] at hr1' ⊢
+      obtain ⟨h1, h2⟩ := hs.live r1 c1 k1 hr1'
+      exact ⟨List.mem_cons_of_mem _ h1, h2⟩
+  · intro r1 hr1
+    have hr1' : (s1.bnd.set r (some (c, k)))[r1]? = some none := hr1
+    show (t.bnd.set r (some (x, i)))[r1]? = some none
+    rw [List.getElem?_set] at hr1'
+    rw [List.getElem?_set]
+    by_cases hrr : r = r1
+    · subst hrr
+      simp only [if_true, hrlt] at hr1'
+      cases hr1'
+    · simp only [hrr, if_false] at hr1' ⊢
+      exact hs.dead r1 hr1'
+  · intro d cd hd hp x1 a1 i1 x2 a2 i2 h1 h2 h3 h4
+    have hclt := hw.slots x a i c hx hi
+    obtain ⟨cl, hcl⟩ : ∃ cl, s1.heap[c]? = some cl := ⟨s1.heap[c], by simp [hclt]⟩
+    have hd' : (incCnt s1.heap c)[d]? = some cd := hd
+    rw [incCnt_of_get _ _ _ hcl] at hd'
+    rcases get_set_cell _ _ _ _ hcl _ _ hd' with ⟨e1, _⟩ | ⟨_, e2⟩
+    · subst e1
+      obtain ⟨g1, g2⟩ := hu x1 a1 i1 h1 h2
+      obtain ⟨g3, g4⟩ := hu x2 a2 i2 h3 h4
+      exact ⟨g1.trans g3.symm, g2.trans g4.symm⟩
+    · exact hs.uniq d cd e2 hp x1 a1 i1 x2 a2 i2 h1 h2 h3 h4
+
+theorem sim_release (L : List Nat) (s : St) (t : Spec.RefVal.St) (hw : WF s) (hs : Sim L s t)
+    (r : Nat) (hr : r < s.bnd.length) :
+    Sim (L.filter (· != r)) (release .counted s r) ⟨t.arrs, t.bnd.set r none⟩ := by
+  have hrt : r < t.bnd.length := by have := hs.len; omega
+  cases hb : s.bnd[r]? with
+  | none =>
+    simp only [List.getElem?_eq_none_iff] at hb; omega
+  | some b =>
+    cases b with
+    | none =>
+      rw [release_unbound _ _ _ hb, set_self_of_getElem? _ _ _ (hs.dead r hb)]
+      apply sim_mono L _ s t hs
+      intro r1 h1 ⟨c, k, h2⟩
+      have hne : r1 ≠ r := by
+        intro e; subst e; rw [hb] at h2; cases h2
+      simp only [List.mem_filter, bne_iff_ne, ne_eq]
+      exact ⟨h1, hne⟩
+    | some p =>
+      obtain ⟨c, k⟩ := p
+      have hlt := hw.bound r c k hb
+      obtain ⟨cl, hcl⟩ : ∃ cl, s.heap[c]? = some cl := ⟨s.heap[c], by simp [hlt]⟩
+      rw [release_bound s r c k cl hb hcl]
+      refine ⟨?_, ?_, ?_, ?_, ?_⟩
+      · show t.arrs = s.arrs.map (fun a => a.map (cellVal (s.heap.set c ⟨cl.val, cl.cnt - 1⟩)))
+        have : cellVal (s.heap.set c ⟨cl.val, cl.cnt - 1⟩) = cellVal s.heap :=
+          funext (cellVal_set_same _ _ _ _ hcl)
+        rw [this]; exact hs.arrs
+      · show (t.bnd.set r _).length = (s.bnd.set r _).length
+        rw [List.length_set, List.length_set]; exact hs.len
+      · intro r1 c1 k1 hr1
+        have hr1' : (s.bnd.set r none)[r1]? = some (some (c1, k1)) := hr1
+        show r1 ∈ L.filter (· != r) ∧ ∃ x0 i0 a0, (t.bnd.set r none)[r1]? = some (some (x0, i0)) ∧ _
+        rw [List.getElem?_set] at hr1'
+        rw [List.getElem?_set]
+        by_cases hrr : r = r1
+        · subst hrr
+          simp only [if_true, hr] at hr1'
+          cases hr1'
+        · simp only [hrr, if_false] at hr1' ⊢
+          obtain ⟨h1, h2⟩ := hs.live r1 c1 k1 hr1'
+          refine ⟨?_, h2⟩
+          simp only [List.mem_filter, bne_iff_ne, ne_eq]
+          exact ⟨h1, fun e => hrr e.symm⟩
+      · intro r1 hr1
+        have hr1' : (s.bnd.set r none)[r1]? = some none := hr1
+        show (t.bnd.set r none)[r1]? = some none
+        rw [List.getElem?_set] at hr1'
+        rw [List.getElem?_set]
+        by_cases hrr : r = r1
+        · subst hrr
+          simp only [if_true, hrt]
+        · simp only [hrr, if_false] at hr1' ⊢
+          exact hs.dead r1 hr1'
+      · intro d cd hd hp x1 a1 i1 x2 a2 i2 h1 h2 h3 h4
+        rcases get_set_cell _ _ _ _ hcl _ _ hd with ⟨e1, e2⟩ | ⟨_, e2⟩
+        · subst e1; subst e2
+          have hp' : 0 < cl.cnt - 1 := hp
+          exact hs.uniq d cl hcl (by omega) x1 a1 i1 x2 a2 i2 h1 h2 h3 h4
+        · exact hs.uniq d cd e2 hp x1 a1 i1 x2 a2 i2 h1 h2 h3 h4
+
+/-! ### one statement -/
+
+theorem sim_lit (L : List Nat) (s : St) (t : Spec.RefVal.St) (x : Nat) (vs : List Int) (rest : List Op)
+    (hw : WF s) (hs : Sim L s t) (hd : disc L (.lit x vs :: rest) = true) :
+    ∃ L', Sim L' (step .counted s (.lit x vs)) (Spec.RefVal.step t (.lit x vs)) ∧ disc L' rest = true := by
+  simp only [disc, Bool.and_eq_true, List.isEmpty_iff] at hd
+  obtain ⟨hL, hd⟩ := hd
+  subst hL
+  refine ⟨[], ?_, hd⟩
+  have hw' := wf_step s (.lit x vs) hw
+  have hlen := spec_arrs_len hs
+  by_cases hx : x < s.arrs.length
+  · have hx' : x < t.arrs.length := by omega
+    have e1 : step .counted s (.lit x vs) =
+        ⟨s.heap ++ vs.map (fun v => ⟨v, 0⟩), s.arrs.set x (List.range' s.heap.length vs.length), s.bnd⟩ := by
+      simp only [step, stepOpt, hx, ↓reduceIte, Option.getD_some]
+    have e2 : Spec.RefVal.step t (.lit x vs) = ⟨t.arrs.set x vs, t.bnd⟩ := by
+      simp only [Spec.RefVal.step, Spec.RefVal.stepOpt, hx', ↓reduceIte, Option.getD_some]
+    rw [e1] at hw' ⊢
+    rw [e2]
+    apply sim_nobinder s _ t ⟨t.arrs.set x vs, t.bnd⟩ hs hw' rfl rfl
+    show t.arrs.set x vs = (s.arrs.set x (List.range' s.heap.length vs.length)).map
+      (fun a => a.map (cellVal (s.heap ++ vs.map (fun v => ⟨v, 0⟩))))
+    have e3 : s.arrs.map (fun a => a.map (cellVal (s.heap ++ vs.map (fun v => ⟨v, 0⟩)))) = vals s := by
+      apply vals_congr
+      intro x1 a1 i1 c1 h1 h2
+      exact cellVal_append_left _ _ _ (hw.slots x1 a1 i1 c1 h1 h2)
+    simp only [List.map_set]
+    rw [e3, map_cellVal_range', hs.arrs]
+  · have hx' : ¬ x < t.arrs.length := by omega
+    have e1 : step .counted s (.lit x vs) = s := by
+      simp only [step, stepOpt, hx, ↓reduceIte, Option.getD_none]
+    have e2 : Spec.RefVal.step t (.lit x vs) = t := by
+      simp only [Spec.RefVal.step, Spec.RefVal.stepOpt, hx', ↓reduceIte, Option.getD_none]
+    rw [e1, e2]; exact hs
+
+theorem sim_copy (L : List Nat) (s : St) (t : Spec.RefVal.St) (x y : Nat) (rest : List Op)
+    (hw : WF s) (hs : Sim L s t) (hd : disc L (.copy x y :: rest) = true) :
+    ∃ L', Sim L' (step .counted s (.copy x y)) (Spec.RefVal.step t (.copy x y)) ∧ disc L' rest = true := by
+  simp only [disc, Bool.and_eq_true, List.isEmpty_iff] at hd
+  obtain ⟨hL, hd⟩ := hd
+  subst hL
+  refine ⟨[], ?_, hd⟩
+  have hw' := wf_step s (.copy x y) hw
+  have hlen := spec_arrs_len hs
+  have hy' := spec_arrs_get hs y
+  by_cases hx : x < s.arrs.length
+  · have hx' : x < t.arrs.length := by omega
+    cases hy : s.arrs[y]? with
+    | none =>
+      rw [hy] at hy'
+      have e1 : step .counted s (.copy x y) = s := by
+        simp only [step, stepOpt, hx, hy, ↓reduceIte, Option.getD_none]
+      have e2 : Spec.RefVal.step t (.copy x y) = t := by
+        simp only [Spec.RefVal.step, Spec.RefVal.stepOpt, hx', hy', Option.map_none, ↓reduceIte, Option.getD_none]
+      rw [e1, e2]; exact hs
+    | some a =>
+      rw [hy] at hy'
+      have e1 : step .counted s (.copy x y) = ⟨s.heap, s.arrs.set x a, s.bnd⟩ := by
+        simp only [step, stepOpt, hx, hy, ↓reduceIte, Option.getD_some]
+      have e2 : Spec.RefVal.step t (.copy x y) = ⟨t.arrs.set x (a.map (cellVal s.heap)), t.bnd⟩ := by
+        simp only [Spec.RefVal.step, Spec.RefVal.stepOpt, hx', hy', Option.map_some, ↓reduceIte, Option.getD_some]
+      rw [e1] at hw' ⊢
+      rw [e2]
+      apply sim_nobinder s _ t ⟨t.arrs.set x (a.map (cellVal s.heap)), t.bnd⟩ hs hw' rfl rfl
+      show t.arrs.set x _ = (s.arrs.set x a).map (fun a => a.map (cellVal s.heap))
+      simp only [List.map_set]
+      rw [hs.arrs]; rfl
+  · have hx' : ¬ x < t.arrs.length := by omega
+    have e1 : step .counted s (.copy x y) = s := by
+      simp only [step, stepOpt, hx, ↓reduceIte, Option.getD_none]
+    have e2 : Spec.RefVal.step t (.copy x y) = t := by
+      simp only [Spec.RefVal.step, Spec.RefVal.stepOpt, hx', ↓reduceIte, Option.getD_none]
+    rw [e1, e2]; exact hs
+
+theorem sim_store (L : List Nat) (s : St) (t : Spec.RefVal.St) (x i : Nat) (v : Int) (rest : List Op)
+    (hw : WF s) (hs : Sim L s t) (hd : disc L (.store x i v :: rest) = true) :
+    ∃ L', Sim L' (step .counted s (.store x i v)) (Spec.RefVal.step t (.store x i v)) ∧
+      disc L' rest = true := by
+  simp only [disc] at hd
+  refine ⟨L, ?_, hd⟩
+  cases hst : storeSlot s x i v with
+  | none =>
+    have e1 : step .counted s (.store x i v) = s := by
+      simp only [step, stepOpt, hst, Option.getD_none]
+    have e2 : Spec.RefVal.step t (.store x i v) = t := by
+      simp only [Spec.RefVal.step, Spec.RefVal.stepOpt]
+      rcases storeSlot_none _ _ _ _ hst with h1 | ⟨a, h1, h2⟩ | ⟨a, c, h1, h2, h3⟩
+      · rw [spec_store_none1 hs x i v h1]; rfl
+      · rw [spec_store_none2 hs x i a v h1 h2]; rfl
+      · have := hw.slots x a i c h1 h2
+        simp only [List.getElem?_eq_none_iff] at h3; omega
+    rw [e1, e2]; exact hs
+  | some s' =>
+    have e1 : step .counted s (.store x i v) = s' := by
+      simp only [step, stepOpt, hst, Option.getD_some]
+    obtain ⟨a, c, cl, hx, hi, hc, hcase⟩ := storeSlot_some _ _ _ _ _ hst
+    have e2 : Spec.RefVal.step t (.store x i v) =
+        ⟨t.arrs.set x ((a.map (cellVal s.heap)).set i v), t.bnd⟩ := by
+      simp only [Spec.RefVal.step, Spec.RefVal.stepOpt]
+      rw [spec_store_some hs x i c a v hx hi]; rfl
+    rw [e1, e2]
+    rcases hcase with ⟨hp, h1⟩ | ⟨h0, h1⟩
+    · subst h1; exact sim_inplace L s t hs x i c a cl v hx hi hc hp
+    · subst h1; exact sim_replace L s t hw hs x i c a cl v hx hi hc h0
+
+theorem sim_wr (L : List Nat) (s : St) (t : Spec.RefVal.St) (r : Nat) (v : Int) (rest : List Op)
+    (hw : WF s) (hs : Sim L s t) (hd : disc L (.wr r v :: rest) = true) :
+    ∃ L', Sim L' (step .counted s (.wr r v)) (Spec.RefVal.step t (.wr r v)) ∧ disc L' rest = true := by
+  simp only [disc] at hd
+  refine ⟨L, ?_, hd⟩
+  cases hb : s.bnd[r]? with
+  | none =>
+    have hb' := spec_bnd_none hs r hb
+    have e1 : step .counted s (.wr r v) = s := by
+      simp only [step, stepOpt, hb, Option.getD_none]
+    have e2 : Spec.RefVal.step t (.wr r v) = t := by
+      simp only [Spec.RefVal.step, Spec.RefVal.stepOpt, hb', Option.getD_none]
+    rw [e1, e2]; exact hs
+  | some b =>
+    cases b with
+    | none =>
+      have hb' := hs.dead r hb
+      have e1 : step .counted s (.wr r v) = s := by
+        simp only [step, stepOpt, hb, Option.getD_some]
+      have e2 : Spec.RefVal.step t (.wr r v) = t := by
+        simp only [Spec.RefVal.step, Spec.RefVal.stepOpt, hb', Option.getD_some]
+      rw [e1, e2]; exact hs
+    | some p =>
+      obtain ⟨c, k⟩ := p
+      obtain ⟨_, x, i, a, hb', hx, hi⟩ := hs.live r c k hb
+      have hlt := hw.bound r c k hb
+      obtain ⟨cl, hcl⟩ : ∃ cl, s.heap[c]? = some cl := ⟨s.heap[c], by simp [hlt]⟩
+      have hp : 0 < cl.cnt := by
+        have := binders_pos s r c k hb
+        have := hw.count c cl hcl
+        omega
+      have e1 : step .counted s (.wr r v) = ⟨s.heap.set c ⟨v, cl.cnt⟩, s.arrs, s.bnd⟩ := by
+        simp only [step, stepOpt, hb, Option.getD_some, setVal_of_get _ _ _ _ hcl]
+      have e2 : Spec.RefVal.step t (.wr r v) =
+          ⟨t.arrs.set x ((a.map (cellVal s.heap)).set i v), t.bnd⟩ := by
+        simp only [Spec.RefVal.step, Spec.RefVal.stepOpt, hb']
+        rw [spec_store_some hs x i c a v hx hi]; rfl
+      rw [e1, e2]
+      exact sim_inplace L s t hs x i c a cl v hx hi hcl hp
+
+theorem sim_release_step (L : List Nat) (s : St) (t : Spec.RefVal.St) (r : Nat) (rest : List Op)
+    (hw : WF s) (hs : Sim L s t) (hd : disc L (.release r :: rest) = true) :
+    ∃ L', Sim L' (step .counted s (.release r)) (Spec.RefVal.step t (.release r)) ∧ disc L' rest = true := by
+  simp only [disc] at hd
+  refine ⟨L.filter (· != r), ?_, hd⟩
+  by_cases hr : r < s.bnd.length
+  · have hr' : r < t.bnd.length := by have := hs.len; omega
+    have e1 : step .counted s (.release r) = release .counted s r := by
+      simp only [step, stepOpt, hr, ↓reduceIte, Option.getD_some]
+    have e2 : Spec.RefVal.step t (.release r) = ⟨t.arrs, t.bnd.set r none⟩ := by
+      simp only [Spec.RefVal.step, Spec.RefVal.stepOpt, hr', ↓reduceIte, Option.getD_some]
+    rw [e1, e2]
+    exact sim_release L s t hw hs r hr
+  · have hr' : ¬ r < t.bnd.length := by have := hs.len; omega
+    have e1 : step .counted s (.release r) = s := by
+      simp only [step, stepOpt, hr, ↓reduceIte, Option.getD_none]
+    have e2 : Spec.RefVal.step t (.release r) = t := by
+      simp only [Spec.RefVal.step, Spec.RefVal.stepOpt, hr', ↓reduceIte, Option.getD_none]
+    rw [e1, e2]
+    apply sim_mono L _ s t hs
+    intro r1 h1 ⟨c, k, h2⟩
+    have := lt_of_getElem?_eq_some _ _ _ h2
+    simp only [List.mem_filter, bne_iff_ne, ne_eq]
+    exact ⟨h1, by omega⟩
+
+theorem sim_bind (L : List Nat) (s : St) (t : Spec.RefVal.St) (k : Kind) (r x i : Nat) (rest : List Op)
+    (hw : WF s) (hs : Sim L s t) (hd : disc L (.bind k r x i :: rest) = true) :
+    ∃ L', Sim L' (step .counted s (.bind k r x i)) (Spec.RefVal.step t (.bind k r x i)) ∧
+      disc L' rest = true := by
+  simp only [disc, Bool.and_eq_true, Bool.not_eq_true', List.contains_eq_mem, decide_eq_false_iff_not] at hd
+  obtain ⟨hrL, hd⟩ := hd
+  refine ⟨r :: L, ?_, hd⟩
+  have hmono : Sim (r :: L) s t :=
+    sim_mono L _ s t hs (fun r1 h1 _ => List.mem_cons_of_mem _ h1)
+  by_cases hr : r < s.bnd.length
+  · have hr' : r < t.bnd.length := by have := hs.len; omega
+    have hb : s.bnd[r]? = some none := by
+      cases hb : s.bnd[r]? with
+      | none => simp only [List.getElem?_eq_none_iff] at hb; omega
+      | some b =>
+        cases b with
+        | none => rfl
+        | some p => exact absurd (hs.live r p.1 p.2 hb).1 hrL
+    have hrel := release_unbound .counted s r hb
+    have hx' := spec_arrs_get hs x
+    cases ho : ownSlot s x i with
+    | none =>
+      have e1 : step .counted s (.bind k r x i) = s := by
+        simp only [step, stepOpt, hr, hrel, ho, ↓reduceIte, Option.getD_none]
+      have e2 : Spec.RefVal.step t (.bind k r x i) = t := by
+        rcases ownSlot_none _ _ _ ho with h1 | ⟨a, h1, h2⟩ | ⟨a, c, h1, h2, h3⟩
+        · rw [h1] at hx'
+          simp only [Spec.RefVal.step, Spec.RefVal.stepOpt, hr', hx', Option.map_none, ↓reduceIte,
+            Option.getD_none]
+        · rw [h1] at hx'
+          have hlt : ¬ i < a.length := by
+            simp only [List.getElem?_eq_none_iff] at h2; omega
+          simp only [Spec.RefVal.step, Spec.RefVal.stepOpt, hr', hx', Option.map_some, List.length_map,
+            hlt, ↓reduceIte, Option.getD_none]
+        · have := hw.slots x a i c h1 h2
+          simp only [List.getElem?_eq_none_iff] at h3; omega
+      rw [e1, e2]; exact hmono
+    | some q =>
+      obtain ⟨s1, c⟩ := q
+      have e1 : step .counted s (.bind k r x i) =
+          ⟨incCnt s1.heap c, s1.arrs, s1.bnd.set r (some (c, k))⟩ := by
+        have hinc : Cfg.counted.incr k = true := rfl
+        simp only [step, stepOpt, hr, hrel, ho, hinc, ↓reduceIte, Option.getD_some]
+      obtain ⟨a, c0, cl, hx, hi, hcl, hcase⟩ := ownSlot_some _ _ _ _ _ ho
+      rw [hx] at hx'
+      have hlt := lt_of_getElem?_eq_some _ _ _ hi
+      have e2 : Spec.RefVal.step t (.bind k r x i) = ⟨t.arrs, t.bnd.set r (some (x, i))⟩ := by
+        simp only [Spec.RefVal.step, Spec.RefVal.stepOpt, hr', hx', Option.map_some, List.length_map,
+          hlt, ↓reduceIte, Option.getD_some]
+      rw [e1, e2]
+      rcases hcase with ⟨hp, h1, h2⟩ | ⟨h0, h1, h2⟩
+      · subst h1; subst h2
+        apply sim_bind_final L s1 t hw hs r c x i k a hb hx hi
+        intro x1 a1 i1 g1 g2
+        exact hs.uniq c cl hcl hp x1 a1 i1 x a i g1 g2 hx hi
+      · subst h2
+        have hs1 := sim_replace L s t hw hs x i c0 a cl cl.val hx hi hcl h0
+        have ea : (a.map (cellVal s.heap)).set i cl.val = a.map (cellVal s.heap) := by
+          apply set_self_of_getElem?
+          rw [List.getElem?_map, hi, Option.map_some, cellVal_of_get _ _ _ hcl]
+        rw [ea, set_self_of_getElem? _ _ _ hx'] at hs1
+        have hw1 := wf_replace s hw x i a cl.val hx
+        rw [← h1] at hs1 hw1
+        have hb1 : s1.bnd[r]? = some none := by rw [h1]; exact hb
+        obtain ⟨g1, g2⟩ := slot_set_self s.arrs x i s.heap.length c0 a hx hi
+        have hx1 : s1.arrs[x]? = some (a.set i s.heap.length) := by rw [h1]; exact g1
+        apply sim_bind_final L s1 t hw1 hs1 r s.heap.length x i k _ hb1 hx1 g2
+        intro x1 a1 i1 g3 g4
+        rw [h1] at g3
+        apply slot_set_fresh s.arrs x i s.heap.length a _ hx x1 i1 a1 g3 g4
+        intro x0 a0 i0 f1 f2
+        have := hw.slots x0 a0 i0 _ f1 f2
+        omega
+  · have hr' : ¬ r < t.bnd.length := by have := hs.len; omega
+    have e1 : step .counted s (.bind k r x i) = s := by
+      simp only [step, stepOpt, hr, ↓reduceIte, Option.getD_none]
+    have e2 : Spec.RefVal.step t (.bind k r x i) = t := by
+      simp only [Spec.RefVal.step, Spec.RefVal.stepOpt, hr', ↓reduceIte, Option.getD_none]
+    rw [e1, e2]; exact hmono
 
 /-- one statement of a disciplined program -/
 theorem sim_step (L : List Nat) (s : St) (t : Spec.RefVal.St) (op : Op) (rest : List Op)
     (hw : WF s) (hs : Sim L s t) (hd : disc L (op :: rest) = true) :
     ∃ L', Sim L' (step .counted s op) (Spec.RefVal.step t op) ∧ disc L' rest = true := by
-  sorry
+  cases op with
+  | lit x vs => exact sim_lit L s t x vs rest hw hs hd
+  | copy x y => exact sim_copy L s t x y rest hw hs hd
+  | store x i v => exact sim_store L s t x i v rest hw hs hd
+  | bind k r x i => exact sim_bind L s t k r x i rest hw hs hd
+  | wr r v => exact sim_wr L s t r v rest hw hs hd
+  | release r => exact sim_release_step L s t r rest hw hs hd
 
 theorem sim_fold (ops : List Op) (L : List Nat) (s : St) (t : Spec.RefVal.St)
     (hw : WF s) (hs : Sim L s t) (hd : disc L ops = true) :
